@@ -8,6 +8,7 @@ package main
 import (
 	"bytes"
 	"context"
+	"encoding/json"
 	"errors"
 	"fmt"
 	"os"
@@ -37,12 +38,13 @@ type c13Op struct {
 	Val       []byte `json:"val,omitempty"`
 	Secs      int64  `json:"secs,omitempty"`
 	WriteFail bool   `json:"write_fail,omitempty"` // Cache.Write fails during this call
+	SlowSecs  int64  `json:"slow_secs,omitempty"`  // kind slow: the Cache.Write of this call takes that many (virtual) seconds, then succeeds
 	PollFail  string `json:"poll_fail,omitempty"`  // the service fails the request for this name
 	SameVer   bool   `json:"same_ver,omitempty"`   // the service returns the value (not "not changed") for an unchanged version
 }
 
 type c13Input struct {
-	Kind      string           `json:"kind"` // hist | doc | conc | trace | inject
+	Kind      string           `json:"kind"` // hist | doc | conc | slow | fcfile | trace | inject
 	Cache     []byte           `json:"cache,omitempty"`
 	ReadFail  bool             `json:"read_fail,omitempty"`
 	InitWFail bool             `json:"init_write_fail,omitempty"`
@@ -136,6 +138,11 @@ type c13Cache struct {
 	backing   setec.Cache // if set: a real setec.FileCache holding the content
 	path      string
 	badMode   string // set when the file's permissions are not 0600 after a write
+	// every payload of the whole run, in the order the writes were OFFERED (Write entered) and LANDED
+	// (took effect); slowNext: the next Write sleeps that long (virtual time in a synctest bubble)
+	allOffered [][]byte
+	allLanded  [][]byte
+	slowNext   time.Duration
 	// a gate: the next Write announces itself on entered and then waits for release (a slow write)
 	gateArmed bool
 	entered   chan struct{}
@@ -158,14 +165,23 @@ func (c *c13Cache) Write(d []byte) error {
 		c.gateArmed = false
 		entered, release = c.entered, c.release
 	}
+	c.allOffered = append(c.allOffered, bytes.Clone(d))
+	slow := c.slowNext
+	c.slowNext = 0
 	c.mu.Unlock()
 	if entered != nil {
 		close(entered)
 		<-release
 	}
+	if slow > 0 {
+		time.Sleep(slow) // a slow file system: the write takes this long and then succeeds
+	}
 	c.mu.Lock()
 	defer c.mu.Unlock()
 	c.writes = append(c.writes, bytes.Clone(d))
+	if !c.failWrite {
+		c.allLanded = append(c.allLanded, bytes.Clone(d))
+	}
 	if c.failWrite {
 		return errors.New("cache write failed")
 	}
@@ -277,6 +293,14 @@ type c13Case struct {
 	Cons     c13SObs
 	Steps    []c13Step
 	Conc     *c13ConcObs
+	Slow     *c13SlowObs
+}
+
+// the state at rest after a history with slow cache writes
+type c13SlowObs struct {
+	Offered, Landed []*c13J
+	RS              *c13Restart
+	FC              *c13FC
 }
 
 // what a block of concurrent calls left behind
@@ -362,6 +386,16 @@ func (c *c13Case) Coq() string {
 	hist := fmt.Sprintf("CHist %s %s %s %s %s %s %s %s %s %s %s %s %s %s",
 		c.tbl.Coq(), coqBool(c.RFail), cin, c13Names(c.Names), coqBool(c.Allow), c13Z(c.AgeNs), coqList(ia), c13Z(c.Now0),
 		c13Names(c.Probe), coqBool(c.ConsOK), c13Names(c.ConsReqs), coqBool(c.ConsWOK), c.Cons.Coq(), coqList(steps))
+	if c.Slow != nil {
+		trees := func(js []*c13J) string {
+			parts := make([]string, len(js))
+			for i, j := range js {
+				parts[i] = j.Coq()
+			}
+			return coqList(parts)
+		}
+		return fmt.Sprintf("CSlow (%s) %s %s %s %s", hist, trees(c.Slow.Offered), trees(c.Slow.Landed), c.Slow.RS.Coq(), c.Slow.FC.Coq())
+	}
 	if c.Conc == nil {
 		return hist
 	}
@@ -483,40 +517,83 @@ func (r *c13Run) restart(o *c13SObs) {
 	} else if err := os.WriteFile(path, content, 0600); err != nil {
 		fatal("C13: %v", err)
 	}
-	func() {
-		defer func() {
-			if p := recover(); p != nil {
-				r.panicky = fmt.Sprintf("file client panicked: %v", p)
-			}
-		}()
-		cl, err := setec.NewFileClient(path)
-		if err != nil {
-			return
-		}
-		fc.OK = true
-		res := func(sv *api.SecretValue, err error) (string, uint32) {
-			switch {
-			case err == nil:
-				return fmt.Sprintf("(FCValue %d %s)", sv.Version, coqBytes(sv.Value)), uint32(sv.Version)
-			case errors.Is(err, api.ErrNotFound):
-				return "FCNotFound", 0
-			case errors.Is(err, api.ErrValueNotChanged):
-				return "FCNotChanged", 0
-			}
-			return "(FCValue 4294967295 [])", 0
-		}
-		for _, n := range r.in.Probe {
-			a := c13FCAns{Name: n}
-			var v uint32
-			a.Get, v = res(cl.Get(context.Background(), n))
-			for _, old := range []uint32{0, v, v + 1} {
-				t, _ := res(cl.GetIfChanged(context.Background(), n, api.SecretVersion(old)))
-				a.GIC = append(a.GIC, fmt.Sprintf("(%d,%s)", old, t))
-			}
-			fc.Ans = append(fc.Ans, a)
+	if p := c13ProbeFC(path, r.in.Probe, fc); p != "" {
+		r.panicky = p
+	}
+	o.FC = fc
+}
+
+// c13ProbeFC runs the real NewFileClient on the file and asks Get / GetIfChanged for every probed
+// name; returns a non-empty text if anything panicked.
+func c13ProbeFC(path string, probe []string, fc *c13FC) (panicky string) {
+	defer func() {
+		if p := recover(); p != nil {
+			panicky = fmt.Sprintf("file client panicked: %v", p)
 		}
 	}()
-	o.FC = fc
+	cl, err := setec.NewFileClient(path)
+	if err != nil {
+		return ""
+	}
+	fc.OK = true
+	res := func(sv *api.SecretValue, err error) (string, uint32) {
+		switch {
+		case err == nil:
+			return fmt.Sprintf("(FCValue %d %s)", sv.Version, coqBytes(sv.Value)), uint32(sv.Version)
+		case errors.Is(err, api.ErrNotFound):
+			return "FCNotFound", 0
+		case errors.Is(err, api.ErrValueNotChanged):
+			return "FCNotChanged", 0
+		}
+		return "(FCValue 4294967295 [])", 0
+	}
+	for _, n := range probe {
+		a := c13FCAns{Name: n}
+		var v uint32
+		a.Get, v = res(cl.Get(context.Background(), n))
+		for _, old := range []uint32{0, v, v + 1} {
+			t, _ := res(cl.GetIfChanged(context.Background(), n, api.SecretVersion(old)))
+			a.GIC = append(a.GIC, fmt.Sprintf("(%d,%s)", old, t))
+		}
+		fc.Ans = append(fc.Ans, a)
+	}
+	return ""
+}
+
+// c13FcFile: a hand-written secrets file (Value and/or TextValue forms) given to NewFileClient.
+func c13FcFile(in c13Input, workdir string, tags []string) Record {
+	tbl := newC13B64()
+	tbl.addRaw(nil)
+	cin := "None"
+	if len(in.Cache) > 0 {
+		cin = "(Some None)"
+		if j, ok := c13Parse(in.Cache); ok {
+			tbl.addTree(j)
+			cin = "(Some (Some " + j.Coq() + "))"
+		}
+	}
+	path := filepath.Join(workdir, "handwritten.json")
+	if err := os.WriteFile(path, in.Cache, 0600); err != nil {
+		fatal("C13: %v", err)
+	}
+	fc := &c13FC{}
+	panicky := c13ProbeFC(path, in.Probe, fc)
+	parts := make([]string, len(fc.Ans))
+	found := 0
+	for i, a := range fc.Ans {
+		parts[i] = "(" + coqBytes([]byte(a.Name)) + ",(" + a.Get + "," + coqList(a.GIC) + "))"
+		if a.Get != "FCNotFound" {
+			found++
+		}
+	}
+	kb, _ := json.Marshal(in)
+	rec := Record{Kind: "fcfile", Input: in, Obs: map[string]any{"ok": fc.OK, "served": found, "file_text": string(bytes.ToValidUTF8(in.Cache, []byte("?")))},
+		Key: "fcfile:" + string(kb), Nontrivial: fc.OK && found > 0, Tags: tags,
+		Coq: fmt.Sprintf("CFc %s %s (FC %s %s)", tbl.Coq(), cin, coqBool(fc.OK), coqList(parts))}
+	if panicky != "" {
+		rec.Direct = &DirectVerdict{OK: false, What: panicky}
+	}
+	return rec
 }
 
 func c13RunHist(in c13Input, workdir string) (*c13Case, string) {
@@ -631,6 +708,7 @@ func c13RunHist(in c13Input, workdir string) (*c13Case, string) {
 		}
 		r.cache.mu.Lock()
 		r.cache.failWrite = op.WriteFail
+		r.cache.slowNext = time.Duration(op.SlowSecs) * time.Second
 		r.cache.mu.Unlock()
 		step := c13Step{WOK: !op.WriteFail}
 		func() {
@@ -710,6 +788,30 @@ func c13RunHist(in c13Input, workdir string) (*c13Case, string) {
 	}
 	if in.Kind == "conc" && r.panicky == "" {
 		r.runConc(c)
+	}
+	if in.Kind == "slow" && r.panicky == "" {
+		// ample (virtual) time for any write still under way to land, then the state at rest
+		time.Sleep(10 * time.Minute)
+		obs := &c13SlowObs{}
+		c.Slow = obs
+		r.cache.mu.Lock()
+		off, land := r.cache.allOffered, r.cache.allLanded
+		r.cache.mu.Unlock()
+		tree := func(bs [][]byte) (out []*c13J) {
+			for _, b := range bs {
+				if j, ok := c13Parse(b); ok {
+					r.tbl.addTree(j)
+					out = append(out, j)
+				} else {
+					out = append(out, c13Str([]byte("unparsable payload")))
+				}
+			}
+			return out
+		}
+		obs.Offered, obs.Landed = tree(off), tree(land)
+		var so c13SObs
+		r.restart(&so)
+		obs.RS, obs.FC = so.RS, so.FC
 	}
 	if r.panicky == "" && r.cache.badMode != "" {
 		r.panicky = r.cache.badMode
